@@ -219,6 +219,8 @@ pub struct ScriptMw {
     pub remove_effect: Option<usize>,
     /// in before_reduce, dispatch this child action through the dispatcher handed to the hook
     pub dispatch_in_hook: Option<u32>,
+    /// read the store's state inside before_reduce and before_dispatch (C08); bound after build
+    pub read_from: Option<Arc<std::sync::Mutex<Option<std::sync::Weak<StoreImpl<St, Act>>>>>>,
 }
 
 impl ScriptMw {
@@ -228,6 +230,16 @@ impl ScriptMw {
             verdicts: Arc::new(|_, _| Verdict::Continue),
             remove_effect: None,
             dispatch_in_hook: None,
+            read_from: None,
+        }
+    }
+    fn read(&self, kind: &'static str, act: u32) {
+        if let Some(cell) = &self.read_from {
+            let w = cell.lock().unwrap().clone();
+            if let Some(s) = w.and_then(|w| w.upgrade()) {
+                let v = s.get_state();
+                log(Ev::Cb { kind, comp: self.idx, act, st: v.0, out: vec![], x: 0 });
+            }
         }
     }
 }
@@ -248,6 +260,7 @@ impl Middleware<St, Act> for ScriptMw {
             out: vec![],
             x: v as i64,
         });
+        self.read("read_in_before_reduce", action.id);
         if let Some(child_of) = self.dispatch_in_hook {
             if child_of == action.id {
                 let child = action.id + CHILD_OFFSET;
@@ -297,6 +310,7 @@ impl Middleware<St, Act> for ScriptMw {
             out: vec![],
             x: v as i64,
         });
+        self.read("read_in_before_dispatch", action.id);
         v.to()
     }
     fn on_error(&self, _error: StoreError) {
